@@ -43,13 +43,14 @@ CHECKS = {
         "level_text": ("Every job's _args (and a join's _chunk_defs / _chunk_outs, in order) as found on disk when the job is handed to the job manager, and the top-level "
                        "_outs at completion, are compared with an independent reference evaluation of the generator's IR; ~2-3k pipestances per quick run. Map calls inside map-called pipelines "
                        "(TestNestedMapsJobs: arrays of arrays with ragged and empty inner sizes, the inner collection passed in or produced inside the mapped pipeline, a leaf that may split or "
-                       "also take the whole inner collection): every job's arguments, start order and multiplicity are judged; the merged values such programs hand on are not (known finding "
+                       "also take the whole inner collection) and per-element disabling flags of a map-called pipeline (TestFlaggedMapsJobs: split [false, MAKE.f1, true] next to split [MAKE.a, MAKE.b, MAKE.a]): every job's arguments, start order and multiplicity are judged; the merged values such programs hand on are not (known finding "
                        "C01/nested-map-merge-repeats-forks). Exploration."),
         "level_note": "E1: jobs are completed in-process by the harness instead of running mrjob/stage processes; the schedule is owned by rapid.",
         "rule": _SEM_RULE + "Non-trivial (C01): >= 2 stage jobs and at least one of map call / disabled modifier / projection / sub-pipeline; distinct by hash(program, schedule).",
         "assumptions": _SEM_ASSUME,
         "units": [U("props/run", "TestRunSemantics", (700, 14), (12000, 15), env={"VERIF_STATS_PROP": "C01"}),
                   U("props/run", "TestNestedMapsJobs", (400, 2), (8000, 4), env={"VERIF_STATS_PROP": "C01"}),
+                  U("props/run", "TestFlaggedMapsJobs", (300, 2), (5000, 4), env={"VERIF_STATS_PROP": "C01"}),
                   U("props/run", "TestE2Run", (60, 6), (1500, 8))],
         "floors": {"quick": {"map-call:array": 200, "map-call:map": 80, "disabled-true": 150, "projection": 300, "sub-pipeline": 300, "split-stage": 300, "map-source:dynamic": 60, "e2-run": 250}},
     },
@@ -66,6 +67,7 @@ CHECKS = {
         "assumptions": _SEM_ASSUME,
         "units": [U("props/run", "TestRunSemantics", (700, 14), (12000, 15), env={"VERIF_STATS_PROP": "C02"}),
                   U("props/run", "TestNestedMapsJobs", (400, 2), (8000, 4), env={"VERIF_STATS_PROP": "C02"}),
+                  U("props/run", "TestFlaggedMapsJobs", (300, 2), (5000, 4), env={"VERIF_STATS_PROP": "C02"}),
                   U("props/run", "TestInterruptOrder", (200, 6), (4000, 8)),
                   U("props/run", "TestE2Run", (60, 6), (1500, 8))],
         "floors": {"quick": {"e2-run": 250, "dep-crosses-pipeline": 300, "dynamic-forks": 60, "preflight": 100, "fate:alive-after-outs": 300}},
@@ -82,6 +84,7 @@ CHECKS = {
         "assumptions": _SEM_ASSUME,
         "units": [U("props/run", "TestRunSemantics", (700, 14), (12000, 15), env={"VERIF_STATS_PROP": "C03"}),
                   U("props/run", "TestNestedMapsJobs", (400, 2), (8000, 4), env={"VERIF_STATS_PROP": "C03"}),
+                  U("props/run", "TestFlaggedMapsJobs", (300, 2), (5000, 4), env={"VERIF_STATS_PROP": "C03"}),
                   U("props/run", "TestE2Run", (60, 6), (1500, 8))],
         "floors": {"quick": {"e2-run": 250, "disabled-true": 150, "map-over-empty": 30, "chunks:0": 100, "chunks:11": 50}},
     },
